@@ -366,7 +366,6 @@ class H3(Case):
             w0 = float(self.w0) if mode == "real" else S(self.w0)
         mats = self.regime == "matsubara"
         zero = self.regime == "zeroT"
-        tau = inp.real("tau", lo=-2, hi=2, nonzero=True)      # tau = 0: eta_function(-tau) is a memo hit
         wc = inp.real("wc", lo=Fr(1, 2), hi=4)
         if self.ct == "hard":
             inp.assume(wc != w0)          # value of the step function at 0 is not documented
@@ -376,6 +375,14 @@ class H3(Case):
             T = inp.real("T", lo=Fr(1, 100), hi=Fr(1, 50))     # b = e^{-w0/T} < eps: overflow-guard branch
         else:
             T = inp.real("T", lo=Fr(1, 4), hi=4)
+        if not mats:
+            tau = inp.real("tau", lo=-2, hi=2, nonzero=True)  # tau = 0: eta_function(-tau) is a memo hit
+        elif self.cold:
+            # imaginary time in the documented domain [0, 1/T], here within 1/2 of 1/T, where the thermal
+            # term e^{-w(1/T - tau)} is of order one (a counterexample replays visibly on the real code)
+            tau = 1 / T - inp.real("v", lo=0, hi=Fr(1, 2))
+        else:
+            tau = inp.real("u", lo=Fr(1, 16), hi=1) / T       # 0 < tau <= 1/T
         pq = bs.PointQuad(w0)
         self.late.set(pq)
         G = bs.ExpGens(inp)
@@ -392,8 +399,11 @@ class H3(Case):
         else:
             b, coth = None, one
         if mats:
-            p = G.decay("p", w0 * tau)                     # e^{w0 tau}
-            ch, sh = (p + one / p) / 2, (p - one / p) / 2
+            p = G.decay("p", w0 * tau, +1)                 # e^{w0 tau} > 1
+            q = one / p
+            ch, sh = (p + q) / 2, (p - q) / 2
+            if mode == "sym":                              # 0 <= tau <= 1/T:  e^{-w0 (1/T - tau)} = b p <= 1
+                inp.assumptions.append(sym.tob(b * p <= 1))
         else:
             c, s = G.phase("a", w0 * tau)
         eps = 2.0 ** -52 if mode == "real" else S(Fr(2) ** -52)     # exact (generic float lifting would give 0)
@@ -411,23 +421,25 @@ class H3(Case):
                 calls_neg = list(pq.calls)
             guard = True if zero else bool(b > eps)        # consistent with the branch taken by the code
         # documented kernels -------------------------------------------------
+        lemmas = []
         if self.kind == "correlation":
             if mats:
-                doc = J * (ch * coth - sh) + 0j
-                doc0 = J * (ch - sh) + 0j
+                # J[cosh(w tau) coth(w/2T) - sinh(w tau)] in its cancellation-free form (lemma below)
+                doc = J * (q + b * p) / (one - b) + 0j
+                doc_cs = J * (ch * coth - sh) + 0j
             else:
                 doc = J * (c * coth - 1j * s)
-                doc0 = J * (c - 1j * s)
             sign = 1
         else:
             w2 = w0 * w0
             if mats:
-                doc = J / w2 * ((one - ch) * coth + sh - w0 * tau) + 0j
-                doc0 = J / w2 * ((one - ch) + sh - w0 * tau) + 0j
+                doc = J / w2 * ((one + b - q - b * p) / (one - b) - w0 * tau) + 0j
+                doc_cs = J / w2 * ((one - ch) * coth + sh - w0 * tau) + 0j
             else:
                 doc = J / w2 * ((one - c) * coth + 1j * (s - w0 * tau))
-                doc0 = J / w2 * ((one - c) + 1j * (s - w0 * tau))
             sign = -1          # eta_function integrates minus the kernel and flips the sign at the end
+        if mats and mode != "real":     # (floating point: the cosh/sinh form cancels catastrophically for large w tau)
+            lemmas.append(Ob.eq("lemma: cancellation-free form == documented cosh/sinh/coth form of the Matsubara kernel", doc, doc_cs))
         nr = 1 if self.ct == "hard" else 2
         obs = [Ob.holds("number of quad calls", len(calls) == 2 * nr),
                Ob.holds("every np.exp argument is an integer combination of the generators", G.fallbacks == 0)]
@@ -442,27 +454,40 @@ class H3(Case):
         for r in range(nr):
             obs.append(Ob.holds("range %d: re/im calls use the same limits" % r,
                                 calls[2 * r]["a"] is calls[2 * r + 1]["a"] or calls[2 * r]["a"] == calls[2 * r + 1]["a"]))
-        target = doc if guard else doc0
-        for r in range(nr):
-            got = calls[2 * r]["v"] + 1j * calls[2 * r + 1]["v"]
-            lab = "documented kernel" if guard else "guard branch: zero-temperature kernel"
-            obs.append(Ob.eq("range %d: integrand == %s" % (r, lab), got, sign * target))
+        obs += lemmas
+        gots = [sign * (calls[2 * r]["v"] + 1j * calls[2 * r + 1]["v"]) for r in range(nr)]   # kernel integrated, documented sign
         if mats:
             obs.append(Ob.eq("matsubara result is real", im_(inp, out), 0 * wc))
-        obs.append(Ob.eq("result == sum over ranges of the kernel functional", out, nr * target))
-        if not guard:
-            # (d) what the guard branch drops is bounded (b <= eps < 1/2, |cos| <= 1):
-            #   correlation: |J cos (coth-1)| = |J cos| 2b/(1-b) <= 4 eps |J|
-            #   eta:         |J/w^2 (1-cos)(coth-1)| <= 8 eps |J| / w^2
-            diff = doc - doc0
-            bound = 4 * eps * abs(J) if self.kind == "correlation" else 8 * eps * abs(J) / (w0 * w0)
-            dr, di = re_(inp, diff), im_(inp, diff)
-            if mats:
-                obs.append(Ob.holds("guard branch taken only for b <= eps", b <= eps))
-            else:
-                obs.append(Ob.holds("guard branch: dropped real part bounded by 4 eps |J| (eta: 8 eps |J|/w^2)", (dr <= bound) & (dr >= -bound)
-                                    if mode == "sym" else (dr <= bound and dr >= -bound)))
-                obs.append(Ob.eq("guard branch: dropped imaginary part is 0", di, 0 * wc))
+        if guard:
+            for r in range(nr):
+                obs.append(Ob.eq("range %d: integrand == documented kernel" % r, gots[r], doc))
+            obs.append(Ob.eq("result == sum over ranges of the kernel functional", out, nr * doc))
+        else:
+            # overflow-guard branch (b = e^{-w/T} <= eps): what is integrated may differ from the DOCUMENTED
+            # finite-temperature kernel only by a bounded amount (never compared with a zero-T kernel):
+            #   correlation:  |doc - got| <= 4 eps |J|          real time and Matsubara with 0 <= tau <= 1/T
+            #                 (|e^{-i w tau}| = 1 resp. e^{-w tau}, e^{-w(1/T - tau)} <= 1; b/(1-b) <= 2 eps)
+            #   eta:          |doc - got| <= 8 eps |J| / w^2    real time      (|e^{-i w tau}| = 1)
+            #                 |doc - got| <= 4 eps |J| / w^2    Matsubara, 0 <= tau <= 1/T
+            tot = None
+            for r in range(nr):
+                tot = gots[r] if tot is None else tot + gots[r]
+                diff = doc - gots[r]
+                dr, di = re_(inp, diff), im_(inp, diff)
+                Dr, Di = re_(inp, doc), im_(inp, doc)
+                if self.kind == "correlation":
+                    br = bi = 4 * eps * abs(J)
+                    what = "4 eps |J|"
+                else:
+                    br = bi = (4 if mats else 8) * eps * abs(J) / (w0 * w0)
+                    what = "%d eps |J|/w^2" % (4 if mats else 8)
+                slack = 0 if mode == "sym" else 1e-9 * (1.0 + abs(complex(doc) if mode != "real" else doc))   # rounding of the concrete runs
+                obs.append(Ob.holds("guard branch, range %d: |Re(documented - integrated)| <= %s" % (r, what),
+                                    _within(mode, dr, br, slack), key="guard_branch_bound"))
+                obs.append(Ob.holds("guard branch, range %d: |Im(documented - integrated)| <= %s" % (r, what),
+                                    _within(mode, di, bi, slack), key="guard_branch_bound"))
+            obs.append(Ob.holds("guard branch taken only for b <= eps", b <= eps))
+            obs.append(Ob.eq("result == sum over ranges of what was integrated (documented sign)", out, tot))
         if not mats:
             for r in range(nr):
                 pos = calls[2 * r]["v"] + 1j * calls[2 * r + 1]["v"]
@@ -470,6 +495,13 @@ class H3(Case):
                 obs.append(Ob.eq("range %d: kernel(-tau) == conj kernel(tau)" % r, neg, _conj(inp, pos)))
             obs.append(Ob.eq("f(-tau) == conj f(tau)", out_neg, _conj(inp, out)))
         return obs
+
+
+def _within(mode, x, bound, slack):
+    """|x| <= bound (+ slack for the rounding of concrete runs)"""
+    if mode == "sym":
+        return (x <= bound) & (x >= -bound)
+    return abs(float(x)) <= float(bound) + slack
 
 
 def _conj(inp, x):
